@@ -255,12 +255,15 @@ struct Model
                 r = "<" + (it == m.attrs.end() ? std::string() : it->second) + "> " + m.message + "%";
                 break;
             }
-            default: {
+            case 5: {
                 std::string t = type_name(m.type);
                 if (t.size() < 8)
                     t = std::string(8 - t.size(), ' ') + t;
                 r = t + ":" + m.message;
+                break;
             }
+            default:
+                r = m.type == 1 ? "W: " + m.message : std::string();
             }
             m.fmt = r;
             m.formatted = true;
